@@ -23,8 +23,9 @@ enum Behaviour { B_WHOLE,
                  B_CHUNKED,
                  B_CLOSE_AFTER,
                  B_NEVER,  // never answered; the connection's later requests wait behind it (responses go in order)
-                 B_DROP }; // never answered, the server goes on with the connection's later requests
-static const char* kBehNames[] = { "whole", "two-pieces", "chunked", "whole-then-close", "never", "dropped" };
+                 B_DROP,   // never answered, the server goes on with the connection's later requests
+                 B_RESET_AFTER }; // answered whole, then the server aborts the connection (RST)
+static const char* kBehNames[] = { "whole", "two-pieces", "chunked", "whole-then-close", "never", "dropped", "whole-then-reset" };
 
 struct Scenario
 {
@@ -139,11 +140,16 @@ struct ScriptedServer
                 c.pendingTags.push_back(tag);
         }
     }
-    void close_conn(size_t ci)
+    void close_conn(size_t ci, bool abort = false)
     {
         static auto cl = sim::real<int (*)(int)>("close");
         if (!conns[ci].closed)
         {
+            if (abort)
+            {
+                struct linger lg = { 1, 0 };
+                setsockopt(conns[ci].fd, SOL_SOCKET, SO_LINGER, &lg, sizeof lg);
+            }
             cl(conns[ci].fd);
             conns[ci].closed = true;
             --openNow;
@@ -188,6 +194,8 @@ struct ScriptedServer
         answered.insert(tag);
         if (b == B_CLOSE_AFTER)
             close_conn(ci);
+        if (b == B_RESET_AFTER)
+            close_conn(ci, true);
     }
     bool can_answer(size_t ci, const Scenario& sc)
     {
@@ -643,6 +651,22 @@ int main(int argc, char** argv)
                 }
             }
         }
+    // the server aborts the connection right after an answer while further requests wait for that connection
+    for (int threads : { 1, 2 })
+        for (int limit : { 1, 2 })
+            for (int n = 2; n <= 3; ++n)
+                for (int pos = 0; pos < n - 1; ++pos)
+                {
+                    if (!thorough && (threads == 2 && limit == 2))
+                        continue;
+                    Scenario s { threads, limit, n, {}, {}, maxD };
+                    for (int i = 0; i < n; ++i)
+                    {
+                        s.beh.push_back(i == pos ? B_RESET_AFTER : B_WHOLE);
+                        s.timeoutMs.push_back(0);
+                    }
+                    gScenarios.push_back(s);
+                }
     // fine-grained issue: more requests than connections, issued by gated threads (lost wake-up between the
     // connection pool and the client's request queue)
     for (int threads : { 1, 2 })
